@@ -25,12 +25,59 @@ def _import_violation(prop, e):
                                  observed=str(e))
 
 
+def _tuplify(x):
+    return tuple(_tuplify(v) for v in x) if isinstance(x, list) else x
+
+
+def _replay_crash(prop, path, record, mod, raw):
+    """The recorded case killed the worker process: re-run it (after the recorded history) in a
+    forked child and report whether the child dies again."""
+    ph = record.get('process_history') or {}
+    mod.imports()
+
+    def body():
+        if not ph.get('fn'):
+            return
+        modname, fname = ph['fn'].split(':')
+        fn = getattr(importlib.import_module(modname), fname)
+        acc = core.Acc()
+        if ph.get('mode') == 'bfs':
+            if hasattr(mod, 'prepare'):
+                mod.prepare(ph.get('tier') or 'quick', ph.get('seed') or 0)
+            for c in ph['cases']:
+                try:
+                    fn(_tuplify(c[0]), _tuplify(c[1]), acc)
+                except Exception:
+                    pass
+        else:
+            for c in ph['cases'] + [record.get('case')]:
+                try:
+                    fn(c, acc, 0)
+                except Exception:
+                    pass
+    died = core.died_in_child(body)
+    print('replay %s: signature %s' % (path, record['signature']))
+    print('  recorded: %s' % json.dumps(record.get('observed'))[:600])
+    if not died:
+        print('  now     : the process survives the recorded case')
+        return 0
+    print('  now     : the process running the recorded case died (%s)' % died)
+    known = core.known_map(prop)
+    if record['signature'] in known and not raw:
+        print('KNOWN-FINDING: property=%s %s' % (prop, known[record['signature']]['what_fails']))
+        return 0
+    print('VIOLATION property=%s replay=%s' % (prop, path))
+    return 1
+
+
 def do_replay(prop, path, raw):
     with open(path) as f:
         record = json.load(f)
     mod = _module(prop)
     got, note = [], ''
     ph = record.get('process_history')
+    if record.get('subcheck') == 'crash':
+        return _replay_crash(prop, path, record, mod, raw)
     if ph and ph.get('cases') and record.get('subcheck') != 'import':
         # faithful reproduction first: the cases the worker process had run just before, then the
         # case itself (state kept by the code under test between calls is reproduced as well)
@@ -38,9 +85,15 @@ def do_replay(prop, path, raw):
         fn = getattr(importlib.import_module(modname), fname)
         mod.imports()
         acc = core.Acc()
-        for c in ph['cases'] + [record.get('case')]:
+        bfs_mode = ph.get('mode') == 'bfs'
+        if bfs_mode and hasattr(mod, 'prepare'):
+            mod.prepare(ph.get('tier') or 'quick', ph.get('seed') or 0)   # module globals of the search
+        for c in (ph['cases'] if bfs_mode else ph['cases'] + [record.get('case')]):
             try:
-                fn(c, acc, 0)
+                if bfs_mode:
+                    fn(_tuplify(c[0]), _tuplify(c[1]), acc)
+                else:
+                    fn(c, acc, 0)
             except core.PhylibImportError:
                 raise
             except Exception as e:
